@@ -121,6 +121,8 @@ type Path struct {
 	spec    bool
 	nIfConv int
 	gtext   map[int][]*Term
+	threads   []*coThread
+	curThread int
 }
 
 func (p *Path) unsupported(format string, args ...interface{}) pathAbort {
